@@ -99,7 +99,12 @@ PROPS = {
         "technique": "Verus contract + loop invariants on the extracted real uncompact; lemmas over the C07 children spec",
     },
     "C14": {
-        "units": ["compact"],
+        "units": ["compact", "glue"],
+        "bounded_ops": [
+            {"op": "lonlat_to_cell", "budget": 600, "what": "lonlat_to_cell / lonlat_to_estimate are NOT under contract (float "
+             "arithmetic, closures, HashSet in their bodies): bounded stand-in - for extreme and random lon/lat x i32 resolutions the "
+             "call returns, and an Ok result is a canonical ID of the requested resolution"},
+        ],
         "rlimit": 30,
         "level": "proof",
         "assumptions": STD_ASSUME + [
@@ -120,12 +125,33 @@ PROPS = {
                       "The float layer is assumed total.",
         "technique": "Verus default safety obligations + rejects/value postconditions on extracted real functions, no preconditions on public API",
     },
+    "C11": {
+        "units": ["glue"],
+        "rlimit": 30,
+        "level": "proof",
+        "assumptions": STD_ASSUME + [
+            "float callees are contract boundaries with ASSUMED contracts: get_quintant_vertices returns 3 vertices, get_face_vertices / "
+            "get_pentagon_vertices 5, split_edges(n) multiplies the vertex count by max(n,1), get_vertices_vec / normalize_longitudes / "
+            "Vec::reverse preserve length, projection inverse is total",
+            "item-local rewrites of cell_to_boundary listed in evidence (unwrap_or_default, unwrap_or_else closure, .max(), iterator "
+            "for-loops -> index loops, thread-local projector -> stub)",
+            "ONLY the ring-length / closure sentence is decided; finite coordinates, latitude range, orientation, centre containment, "
+            "180-degree window and corner stability are float geometry and are not decided",
+        ],
+        "search_ops": ["cell_to_boundary"],
+        "level_text": "Proof (Verus/Z3) on the real cell_to_boundary and get_pentagon that for every u64 and every options value the "
+                      "result is Err for non-cells, empty for world-cell aliases, and otherwise has exactly vertices*n (+1 when closed) "
+                      "points with n = max(segments, 1) or the resolution-dependent default, and a closed ring repeats its first point.",
+        "level_note": "Vertex counts of the float-layer shapes are assumed contracts (see assumptions); only the counting/closure logic of "
+                      "cell_to_boundary itself is proved.",
+        "technique": "Verus contract on the extracted real cell_to_boundary with the float layer as assumed contract boundary",
+    },
     "C20": {
         "units": ["tree"],
         "rlimit": 30,
         "level": "proof",
         "assumptions": STD_ASSUME,
-        "search_ops": ["order", "is_first_child", "get_stride"],
+        "search_ops": ["order", "order_children", "is_first_child", "get_stride"],
         "level_text": "Unbounded proof (Verus/Z3): lemmas over the layout specification that the real serialize is proved to "
                       "implement - among cells of resolution >= 1 the subtree of a cell is exactly one open ID interval "
                       "(both directions), descendants of a precede descendants of b for a<b of equal resolution, ancestors at "
@@ -151,6 +177,11 @@ SEARCH_OPS = {
     "uncompact": ["uncompact", "uncompact_total"],
     "compact": ["compact_cover", "compact_max", "compact_total"],
     "k1_origins": ["roundtrip", "deserialize"],
+    "get_pentagon": ["cell_to_lonlat", "cell_to_boundary"],
+    "cell_to_lonlat": ["cell_to_lonlat"],
+    "cell_to_boundary": ["cell_to_boundary"],
+    "a5cell_contains_point": ["lonlat_to_cell"],
+    "origin": ["cell_to_lonlat"],
 }
 
 # allow-list of assumptions per generated unit ("<what> <name>"); anything else -> UNDECIDED (machinery error)
@@ -158,6 +189,7 @@ TRUSTED = {
     "codec": ["external_body err_msg", "external_body get_origins"],
     "tree": ["external_body err_msg", "external_body get_origins", "assume_specification usize::pow",
              "assume_specification u64::pow", "assume_specification u64::saturating_pow"],
+    "glue": None,
     "compact": ["external_body err_msg", "external_body get_origins", "assume_specification usize::pow",
                 "assume_specification u64::pow", "assume_specification u64::saturating_pow",
                 "external_body U64Set", "external_body std_collect_set", "external_body std_set_into_vec",
@@ -173,6 +205,6 @@ NOT_APPLICABLE = {
     "C16": "local area preservation needs real analysis of the IVEA formulas over f64 code; out of reach",
     "C19": "authalic series inverse/monotone/odd to 1e-12: Clenshaw sums of sin/cos over f64; out of reach",
     "C04": "not built yet (tier B)", "C06": "not built yet (tier B)", "C07": "not built yet", 
-"C10": "not built yet", "C11": "not built yet (tier C)", "C13": "not built yet (tier B)",
+"C10": "not built yet",  "C13": "not built yet (tier B)",
 "C17": "not built yet (tier B)", "C18": "not built yet (tier B)", 
 }
